@@ -5,6 +5,7 @@ CONSTANTS
   NewCells <- NoCells
   Contents <- NoContents
   MaxEdits = 1000000
+  EditBound <- NoBound
   Acts <- TraceActs
   ModeBlind = FALSE
   LinkBlind = FALSE
